@@ -139,13 +139,124 @@ CHECKS["C15"] = {
 
 }
 
-CHECKS["C16"] = {
+UNREGISTERED = {}
+UNREGISTERED["C16"] = {
     "title": "purging removes exactly the unreachable items",
     "outside": ["'leaves K, n50, q_sol;jul unchanged' (the indicators read only reachable items by construction of the retained set; not executed here)", "more than 2 items per collection, more than 1 wall"],
     "harnesses": [
-        {"name": "c16::purge_envelope", "bound": "3 spaces, 1 wall (space/next_to symbolic), 0..1 window, 2 wall constructions (1 layer), 2 materials, 2 window constructions, 2 glasses, 2 frames, 2 bridges with l in {-1,0,1}; links in {a,b,absent}",
-         "kani_args": NOOVF, "cbmc_args": FS, "stubs": FMT, "timeout_quick": 900, "functions": ["bemodel::purge_unused", "bemodel::check"]},
-        {"name": "c16::purge_usage", "bound": "2 spaces (one possibly unused), 2 loads, 2 thermostats, 2 yearly, 2 weekly, 2 daily schedules; links in {None,a,b,absent}",
-         "kani_args": NOOVF, "cbmc_args": FS, "stubs": FMT, "timeout_quick": 900, "functions": ["bemodel::purge_unused"]},
+        {"name": "c16::purge_spaces_tbs", "bound": "3 spaces, 1 wall (space in {1,2,3,absent}, next_to in {None,1,2,3}), 2 bridges with l in {-1,0,1}", "kani_args": NOOVF, "cbmc_args": FS, "stubs": FMT, "timeout_quick": 1200, "functions": ["bemodel::purge_unused"]},
+        {"name": "c16::purge_wallcons", "bound": "1 wall (construction in {a,b,absent}), 2 wall constructions with one layer (material in {a,b,absent}), 2 materials", "kani_args": NOOVF, "cbmc_args": FS, "stubs": FMT, "timeout_quick": 1200, "functions": ["bemodel::purge_unused"]},
+        {"name": "c16::purge_wincons", "bound": "0..1 window (construction in {a,b,absent}), 2 window constructions (glass, frame in {a,b,absent}), 2 glazings, 2 frames", "kani_args": NOOVF, "cbmc_args": FS, "stubs": FMT, "timeout_quick": 1200, "functions": ["bemodel::purge_unused"]},
+        {"name": "c16::purge_loads", "bound": "2 spaces (second possibly unused), loads/thermostat links in {None,a,b,absent}, 2 loads, 2 thermostats", "kani_args": NOOVF, "cbmc_args": FS, "stubs": FMT, "timeout_quick": 1200, "functions": ["bemodel::purge_unused"]},
+        {"name": "c16::purge_schedules", "bound": "1 space, 1 load (3 schedule links), 1 thermostat (2 links) in {None,a,b,absent}; 2 yearly -> 2 weekly -> 2 daily with links in {a,b,absent}", "kani_args": NOOVF, "cbmc_args": FS, "stubs": FMT, "timeout_quick": 1200, "functions": ["bemodel::purge_unused"]},
+    ],
+}
+
+LN = ["f32::ln -> memoised uninterpreted function (CBMC's logf is not functional): ground formulas are decided modulo ln being a function"]
+C06S = FMT + ROUND
+
+CHECKS["C06"] = {
+    "title": "opaque U-values follow EN ISO 6946, 13370 and 13789",
+    "outside": ["numeric value of ln (uninterpreted)", "tolerance statements for arbitrary reals: the mirror oracle pins formula, constants, branch structure and operand order, not conditioning",
+                "stacks deeper than 3 layers", "unconditioned spaces with more than 2 bounding exterior elements", "U of partitions between equally conditioned spaces with a neighbour (the statement does not define it): only 'has a value' is asserted"],
+    "harnesses": [
+        {"name": "c06::u_resistance", "bound": "0..3 layers, each detailed (lambda in {0.035,0.4,1.0,2.3} or <= 0), resistance-only (R in {k/4, k<=15}) or with a missing material; thickness in {k/16, k<=15}", "kani_args": NOOVF, "cbmc_args": FS, "stubs": FMT, "functions": ["WallCons::resistance", "ConsDb::get_material"]},
+        {"name": "c06::u_exterior_kernel", "bound": "tilt in {0,60,90,120,180,300}, R in {k/8, k<=63} or None", "kani_args": NOOVF, "cbmc_args": FS, "stubs": C06S, "functions": ["Wall::u_value_exterior", "Tilt::from", "fround2"]},
+        {"name": "c06::u_interior_kernel", "bound": "Ai in {(k+1)/2}, Rf in {k/4}, UA in {k/2}, q in {2k}, k<=15", "kani_args": NOOVF, "cbmc_args": FS, "stubs": C06S, "functions": ["Wall::u_value_interior_cond_uncond"]},
+        {"name": "c06::u_gnd_slab_kernel", "bound": "z in {k/2,k<=7}, d_t in {(k+1)/4}, B' in {(k+1)/2}, k<=15, psi in {-k/8,k<=7}", "kani_args": NOOVF, "cbmc_args": FS, "stubs": C06S + LN, "functions": ["Wall::u_value_gnd_slab"]},
+        {"name": "c06::u_gnd_wall_kernel", "bound": "z in {k/2,k<=7}, U_w, d_t in {(k+1)/4,k<=15}, h in {(k+1)/2,k<=7}", "kani_args": NOOVF, "cbmc_args": FS, "stubs": C06S + LN, "functions": ["Wall::u_value_gnd_wall"]},
+        {"name": "c06::u_gnd_dt_psi", "bound": "1 ground slab of side 1..4 (+2 decoy floors), slab resistance in {k/4,k<=15}, construction present/absent, Rn in {k/2,k<=7}, D in {k/4,k<=7}, d_t in {(k+1)/4}", "kani_args": NOOVF, "cbmc_args": FS, "stubs": C06S + LN, "functions": ["Space::slab_d_t", "Space::slab_psi_gnd_ext"]},
+        {"name": "c06::dispatch::u_dispatch_air", "bound": "concrete construction (R=1.75); symbolic: 4 boundary kinds x tilt {0,90,180} x construction/material present x lambda > 0", "kani_args": NOOVF, "cbmc_args": FS, "stubs": C06S, "functions": ["Wall::u_value", "WallCons::resistance", "Wall::u_value_exterior"]},
+        {"name": "c06::dispatch::u_dispatch_partition", "bound": "concrete geometry; symbolic: 3x3 space kinds, tilt {0,90,180}, neighbour none/valid/dangling, per-space n_v present or not, building ventilation present or not", "kani_args": NOOVF, "cbmc_args": FS, "stubs": C06S, "timeout_quick": 900,
+         "functions": ["Wall::u_value", "Space::ua_of_external_and_ground_surfaces", "Model::global_ventilation_rate", "Space::area", "Space::height_net", "Wall::u_value_interior_cond_uncond"]},
+        {"name": "c06::dispatch::u_ua_sum", "bound": "1 roof + 1 side element (4 boundary kinds, own/adjacent side, construction present or not) + 0..1 window (construction present or not)", "kani_args": NOOVF, "cbmc_args": FS, "stubs": C06S, "functions": ["Space::ua_of_external_and_ground_surfaces", "Wall::area_net", "WinCons::u_value"]},
+        {"name": "c06::dispatch::u_dispatch_ground", "bound": "tilt {0,90,180}, space z in {-3..1}, space present or not, ground slab present or not", "kani_args": NOOVF, "cbmc_args": FS, "stubs": C06S + LN, "timeout_quick": 900,
+         "functions": ["Wall::u_value", "Space::slab_d_t", "Space::slab_psi_gnd_ext", "Space::slab_char_dim", "Wall::u_value_gnd_slab", "Wall::u_value_gnd_wall"]},
+        {"name": "c06::dispatch::u_char_dim", "bound": "floor 4x5, two side walls with 4 boundary kinds each, 3x3 space kinds, neighbour none/valid/dangling", "kani_args": NOOVF, "cbmc_args": FS, "stubs": C06S, "functions": ["Space::slab_char_dim"]},
+        {"name": "c06::dispatch::u_monotone", "bound": "thickness k/8, R k/4, lambda in {0.4,1.0,2.3}, tilt {0,90,180}, exterior or partition without neighbour", "kani_args": NOOVF, "cbmc_args": FS, "stubs": C06S, "functions": ["Wall::u_value"]},
+    ],
+}
+
+FSH = ["Model::compute_fshobst -> empty map (obstruction factors are inputs; ray casting is decided under C12/C13)"]
+
+CHECKS["C11"]["harnesses"] += [
+    {"name": "c11p::polygon_area_3", "bound": "3 integer vertices in [-4,4]^2 (any winding), scale factors {1/4,1/2,2,4}", "kani_args": NOOVF, "cbmc_args": FS,
+     "functions": ["<Polygon as HasSurface>::area", "<Polygon as HasSurface>::perimeter"]},
+    {"name": "c11p::polygon_area_4", "bound": "4 integer vertices (any winding, self-intersections allowed), same scale factors", "kani_args": NOOVF, "cbmc_args": FS,
+     "functions": ["<Polygon as HasSurface>::area"]},
+    {"name": "c11p::polygon_area_5", "tier": "thorough", "bound": "5 integer vertices", "kani_args": NOOVF, "cbmc_args": FS, "functions": ["<Polygon as HasSurface>::area"]},
+    {"name": "c11p::space_area_height", "bound": "1 space, 2 floors (second own/foreign), ceiling own roof / given from the other side / none, 0..2 windows; sizes on integer grid", "kani_args": NOOVF, "cbmc_args": FS, "stubs": FMT + ROUND,
+     "functions": ["Space::area", "Space::height_net", "Wall::area_net", "WallCons::thickness"]},
+    {"name": "c11p::props_global", "bound": "2 spaces (inside/outside, 3 kinds, multiplier {1,2}, height {2,3,4}), floor + wall of space 1 with 4 boundary kinds each, neighbour none/valid/dangling, side 1..4", "kani_args": NOOVF, "cbmc_args": FS, "stubs": FMT + ROUND + FSH, "timeout_quick": 1200,
+     "functions": ["EnergyProps::from(&Model)", "Space::area", "Space::height_net", "Wall::u_value", "Wall::area_net"]},
+    {"name": "c11p::ventilation_consistency", "bound": "1 space (inside/outside, 3 kinds), floor side 1..4, building ventilation in {10..13} l/s", "kani_args": NOOVF, "cbmc_args": FS, "stubs": FMT + ROUND + FSH, "timeout_quick": 1200,
+     "functions": ["EnergyProps::from(&Model)", "Model::global_ventilation_rate"]},
+]
+CHECKS["C11"]["outside"] = ["scale factors that are not powers of two", "models with more than 2 spaces / 2 walls", "off-grid geometry", "net volume with a ceiling element (net height is decided separately in space_area_height)"]
+
+CHECKS["C17"]["harnesses"] += [
+    {"name": "c17::sched::week_to_days", "bound": "weekly schedule of two runs c + (7-c), c in 0..7", "kani_args": NOOVF, "cbmc_args": FS, "functions": ["ScheduleWeek::to_day_sch"]},
+    {"name": "c17::sched::end_dates_partition", "bound": "every increasing list of 3 end dates ending on 31 Dec", "functions": ["convert::from_ctehexml::day_of_year"]},
+    {"name": "c17::sched::year_as_days", "bound": "2 periods of 0..4 days, two weekly schedules of two runs (c, 7-c), second weekly schedule present or missing", "kani_args": NOOVF, "cbmc_args": FS, "stubs": FMT, "timeout_quick": 1200,
+     "functions": ["SchedulesDb::get_year_as_day_sch", "ScheduleWeek::to_day_sch"]},
+]
+CHECKS["C17"]["outside"] = ["schedules_from_bdl itself (string-keyed IdMaps): only its date arithmetic is decided", "yearly occupied time and mean internal load (EnergyProps::from over schedule expansions: not tractable within the cap)", "periods longer than 4 days, more than 2 periods"]
+
+CHECKS["C14"] = {
+    "title": "indicator computation is total",
+    "outside": ["lock poisoning / 'a failure never affects later computations' (no threads or unwinding under Kani)", "JSON serialise/parse of the result", "compute_fshobst (stubbed here; its ray casting is decided under C12/C13)", "models beyond the stated sizes"],
+    "harnesses": [
+        {"name": "c14::props_total_links", "bound": "0..1 space, 0..1 wall (space link valid/nil/absent, neighbour none/valid/absent, triangle polygon, 4 boundary kinds, 3 tilts), 0..1 window (wall valid/absent, sizes in {-1..2}), 0..1 bridge", "kani_args": NOOVF, "cbmc_args": FS, "stubs": FMT + ROUND + FSH, "timeout_quick": 1500,
+         "unwindset": [[r"c14::table", 10], [r"kani_models::HashMap.*::pos", 10]],
+         "functions": ["EnergyProps::from(&Model)", "KData::from", "N50Data::from", "QSolJulData::from"]},
+        {"name": "c14::props_total_links_nopoly", "bound": "same with an empty polygon", "kani_args": NOOVF, "cbmc_args": FS, "stubs": FMT + ROUND + FSH, "timeout_quick": 1500,
+         "unwindset": [[r"c14::table", 10], [r"kani_models::HashMap.*::pos", 10]], "functions": ["EnergyProps::from(&Model)", "KData::from", "N50Data::from", "QSolJulData::from"]},
+        {"name": "c14::props_total_links_degenerate", "tier": "thorough", "bound": "same with a two-vertex polygon", "kani_args": NOOVF, "cbmc_args": FS, "stubs": FMT + ROUND + FSH,
+         "unwindset": [[r"c14::table", 10], [r"kani_models::HashMap.*::pos", 10]], "functions": ["EnergyProps::from(&Model)"]},
+        {"name": "c14::props_total_schedules", "bound": "2 occupied spaces, loads with present/absent/dangling yearly schedules of 0..2 days, weekly schedule pointing to a present or absent daily schedule of 0 or 2 values", "kani_args": NOOVF, "cbmc_args": FS, "stubs": FMT + ROUND + FSH, "timeout_quick": 1500,
+         "functions": ["EnergyProps::from(&Model)", "SchedulesDb::get_year_as_day_sch"]},
+    ],
+}
+
+CHECKS["C12"] = {
+    "title": "obstruction factors: sunlit fraction of horizontal scenes (partial)",
+    "outside": ["the obstruction factor itself (irradiance weighting over the 14 July design hours, >= 0.97 for unobstructed windows)", "every non-horizontal geometry (rotation matrices need sin/cos)", "sample grids of 25..100 origins (2 origins here)", "reveal shades generated from setback (ids are md5 of formatted text)"],
+    "harnesses": [
+        {"name": "c12::sunlit_fraction_horizontal", "bound": "horizontal wall (tilt 0, azimuth 0) with one window, 0..2 horizontal obstacles 2x2 at integer positions in [-2,3]^2 x {1,2,3} (free / carrying the wall's id / linked to another window / linked to this window), 2 ray origins, sun direction in {-1,0,1}^3 minus 0; wall present or not, position present or not",
+         "kani_args": NOOVF, "cbmc_args": FS, "stubs": FMT, "timeout_quick": 1500, "functions": ["Model::sunlit_fraction", "BVH::build", "BVH::intersects", "<&Occluder as Intersectable>::intersects", "Ray::intersects_with_data", "WallGeom::normal"]},
+    ],
+}
+
+CHECKS["C19"] = {
+    "title": "damaged project files: typed-value kernels do not crash (partial)",
+    "outside": ["everything between bytes and typed values: deleted/duplicated lines, truncation, numbers replaced by text, the XML layer, kyg/tbl readers (string parsing is not executable symbolically)", "hangs"],
+    "harnesses": [
+        {"name": "c19::edge_vertices_total", "bound": "vertex name 'V'+one digit, outline of 0..4 vertices", "kani_args": NOOVF, "cbmc_args": FS, "stubs": FMT, "functions": ["hulc::bdl::Polygon::edge_vertices"]},
+        {"name": "c19::polygon_ops_total", "bound": "outline of 0..3 vertices on integer grid", "kani_args": NOOVF, "cbmc_args": FS, "functions": ["hulc::bdl::Polygon::area", "hulc::bdl::Polygon::mirror_y"]},
+        {"name": "c19::dates_total", "bound": "any (day, month) in 0..=99", "functions": ["convert::from_ctehexml::day_of_year"]},
+        {"name": "c19::tilt_any_total", "bound": "every f32 bit pattern", "kani_args": NOOVF, "functions": ["hulc::bdl::Wall::position", "bemodel::Tilt::from(f32)"]},
+    ],
+}
+
+CHECKS["C04"] = {
+    "title": "JSON format: omitted defaults load back as that default (partial)",
+    "pre": "serde_scan",
+    "outside": ["serialise -> parse text identity and idempotence (serde_json: std BTreeMap + float printing/parsing)", "untagged/flattened MatProps disambiguation", "the seven shipped model files", "renamed or re-typed fields"],
+    "harnesses": [
+        {"name": "c04::skip_multiplier", "bound": "every f32 bit pattern", "functions": ["utils::multiplier_is_1", "utils::default_1"]},
+        {"name": "c04::skip_true", "bound": "both booleans", "functions": ["utils::is_true", "utils::default_true"]},
+        {"name": "c04::skip_default_f32", "bound": "every f32 bit pattern", "functions": ["utils::is_default::<f32>"]},
+        {"name": "c04::skip_default_enums", "bound": "all SpaceType and ThermalBridgeKind values", "functions": ["utils::is_default::<SpaceType>", "utils::is_default::<ThermalBridgeKind>"]},
+        {"name": "c04::skip_empty_containers", "bound": "each part of ConsDb / SchedulesDb / PropsOverrides empty or holding one item", "cbmc_args": FS, "functions": ["ConsDb::is_empty", "SchedulesDb::is_empty", "PropsOverrides::is_empty"]},
+    ],
+}
+
+CHECKS["C03"] = {
+    "title": "conversion: azimuth convention and outline mirroring (partial)",
+    "outside": ["every position (products of rotation matrices: sin/cos are not interpreted by CBMC)", "wall_geometry as a whole (string-keyed lookups)", "window placement, shades, invariance of areas/volumes/U/K/n50 under rotation"],
+    "harnesses": [
+        {"name": "c03::azimuth_convention", "bound": "every quarter-degree azimuth in [-360,720]", "kani_args": NOOVF, "unwindset": [[r"c03::azimuth_convention", 5]], "functions": ["convert::orientation_bdl_to_52016", "convert::normalize_azimuth", "utils::normalize"]},
+        {"name": "c03::azimuth_shift", "bound": "every pair (azimuth, delta) on the quarter-degree grid in [0,360)^2", "kani_args": NOOVF, "unwindset": [[r"c03::azimuth_shift", 5]], "functions": ["convert::orientation_bdl_to_52016"]},
+        {"name": "c03::mirror_y_outline", "bound": "outline of 1..4 vertices on integer grid [-4,4]^2", "kani_args": NOOVF, "cbmc_args": FS, "functions": ["hulc::bdl::Polygon::mirror_y"]},
     ],
 }
